@@ -267,7 +267,9 @@ Definition b4q_out_given_in (fee sp target liq remaining : Z) : option bucket_st
   let? next := (if amt_in0 <=? after_fee then Some target
                 else next_sqrt_from_base_in_up sp liq after_fee) in
   let reached := target =? next in
-  let? amt_in := (if reached then Some amt_in0 else calc_amount_base_delta liq next sp true) in
+  (* not reached: the amount is rounded up to a whole unit and is never more than what is left *)
+  let? amt_in := (if reached then Some amt_in0 else
+                  let? a := calc_amount_base_delta liq next sp true in Some (if remaining <? a then remaining else a)) in
   let? amt_out := calc_amount_quote_delta liq next sp false in
   let? fc := fee_charge_out_given_in reached amt_in remaining fee in
   Some (next, amt_in, amt_out, fc).
@@ -292,7 +294,8 @@ Definition q4b_out_given_in (fee sp target liq remaining : Z) : option bucket_st
   let? next := (if amt_in0 <=? after_fee then Some target
                 else next_sqrt_from_quote_in_down sp liq after_fee) in
   let reached := target =? next in
-  let? amt_in := (if reached then Some amt_in0 else calc_amount_quote_delta liq next sp true) in
+  let? amt_in := (if reached then Some amt_in0 else
+                  let? a := calc_amount_quote_delta liq next sp true in Some (if remaining <? a then remaining else a)) in
   let? amt_out := calc_amount_base_delta liq next sp false in
   let? fc := fee_charge_out_given_in reached amt_in remaining fee in
   Some (next, amt_in, amt_out, fc).
